@@ -88,6 +88,8 @@ COQ_TY = {'Z': 'Z', 'bool': 'bool', 'optZ': 'option Z', 'nat': 'nat', 'unit': 'u
 def coq_ty(t):
     if t in COQ_TY:
         return COQ_TY[t]
+    if t.startswith('opt '):
+        return 'option (%s)' % coq_ty(t[4:])
     return re.sub(r'[A-Za-z_]\w*', lambda m: COQ_TY.get(m.group(0), m.group(0)) if m.group(0) not in ('Z', 'bool', 'nat', 'unit') else m.group(0), t)
 
 
@@ -118,8 +120,10 @@ class Env:
 
 
 class Ctx:
-    def __init__(self, ret, brk=None, cont=None):
-        self.ret, self.brk, self.cont = ret, brk, cont
+    def __init__(self, ret, brk=None, cont=None, exc=None):
+        # exc: inside `try: .. except:` -- what a raising construct continues with (the handler), given the
+        # environment at the point of failure
+        self.ret, self.brk, self.cont, self.exc = ret, brk, cont, exc
 
 
 # ------------------------------------------------------------------------------------ translator
@@ -134,12 +138,14 @@ class FnTranslator:
         self.errors = cfg.get('errors', {})           # exception class -> Coq term
         self.raises = cfg.get('raises', [])           # [(class, kind, regex-or-name, Coq term)]
         self.patterns = [Pat(*p) for p in cfg.get('patterns', [])]
-        self.stmt_patterns = [(Pat(s, t, tmpl, None), tgt) for (s, t, tgt, tmpl) in cfg.get('stmt_patterns', [])]
+        self.stmt_patterns = [(Pat(sp[0], sp[1], sp[3], sp[4] if len(sp) > 4 else None), sp[2]) for sp in cfg.get('stmt_patterns', [])]
         self.binds = cfg.get('binds', {})             # unparse(rhs) -> symbolic object type
         self.seq_binds = cfg.get('seq_binds', [])     # [([stmt texts], var, coq term, type)]
         self.skip_defs = dict(cfg.get('skip_defs', {}))   # nested def name -> exact ast.unparse text it must have
         self.var_types = cfg.get('var_types', {})     # type of `x = []`
         self.fuel = list(cfg.get('fuel', []))
+        self.yields = cfg.get('yields')               # element type of a generator function (yield -> accumulated list)
+        self.attr_assign = cfg.get('attr_assign', {}) # (record type, attribute) -> template over {cur} and {val}
         self.truthy = cfg.get('truthy', {})           # config type -> bool template ({0} = the value)
         self.ignore = [re.compile(r) for r in cfg.get('ignore_stmts', [])]   # statements without effect on the model
         self.rewrites = cfg.get('stmt_rewrites', [])  # (exact text | 'sha256:<hex>', replacement python source)
@@ -192,6 +198,14 @@ class FnTranslator:
         self.loops.append(fix.replace(placeholder, real))
         return real
 
+    def coerce(self, term, ty, want):
+        """a value known to be a T on this path used where T|None is expected"""
+        if ty == want:
+            return term
+        if want == 'opt ' + ty or (want == 'optZ' and ty == 'Z'):
+            return '(Some %s)' % term
+        return None
+
     def mangle(self, name):
         return 'v_' + name
 
@@ -212,8 +226,16 @@ class FnTranslator:
                     g, t, ty = self.tr(sub, env)
                     want = pat.types.get(mv)
                     if want is not None and ty != want:
-                        ok = False
-                        break
+                        c = self.coerce(t, ty, want) if t is not None else None
+                        if c is None and t is not None and ty == 'opt ' + want and 'NoneValue' in self.errors:
+                            # a value that may be None where the model's type has no None: a distinct error value
+                            b3 = self.fresh('u')
+                            g = g + [('opt', b3, t, 'NoneValue')]
+                            c = b3
+                        if c is None:
+                            ok = False
+                            break
+                        t, ty = c, want
                     if t is None and ('{%s}' % mv) in pat.template:
                         ok = False
                         break
@@ -461,14 +483,14 @@ class FnTranslator:
             return k(env)
         g = guards[0]
         if g[0] == 'fail':
-            return ctx.ret(self.err(g[1]))
+            return ctx.exc(env) if ctx.exc else ctx.ret(self.err(g[1]))
         if g[0] == 'res':
             return '(match %s with Err err__ => %s | Ok %s => %s end)' % (
-                g[2], ctx.ret('(Err err__)'), g[1], self.wrap(guards[1:], env, ctx, k))
+                g[2], ctx.exc(env) if ctx.exc else ctx.ret('(Err err__)'), g[1], self.wrap(guards[1:], env, ctx, k))
         _, b, opt, cls = g
         env2 = env.cached(opt, b) if 'v_' not in opt and opt.startswith('nth_error') else env
         return '(match %s with None => %s | Some %s => %s end)' % (
-            opt, ctx.ret(self.err(cls)), b, self.wrap(guards[1:], env2, ctx, k))
+            opt, ctx.exc(env) if ctx.exc else ctx.ret(self.err(cls)), b, self.wrap(guards[1:], env2, ctx, k))
 
     # -- conditions with short-circuit operands that can raise
     def cond(self, test, env, ctx, kt, kf):
@@ -504,6 +526,10 @@ class FnTranslator:
             for n in ast.walk(s):
                 if isinstance(n, ast.Name) and isinstance(n.ctx, ast.Store):
                     add(n.id)
+                elif isinstance(n, ast.Yield):
+                    add('yield__')
+                elif isinstance(n, ast.Attribute) and isinstance(n.ctx, ast.Store) and isinstance(n.value, ast.Name):
+                    add(n.value.id)
                 elif isinstance(n, ast.Expr):
                     for pat, tgt in self.stmt_patterns:
                         if pmatch(pat.ast, n.value, {}):
@@ -561,6 +587,39 @@ class FnTranslator:
                 return self.block(stmts[len(texts):], env.bind(var, term, ty), ctx, k)
         s, rest = stmts[0], stmts[1:]
         krest = lambda e: self.block(rest, e, ctx, k)
+        if isinstance(s, ast.Expr) and isinstance(s.value, ast.Yield):
+            if not self.yields or s.value.value is None:
+                refuse('yield in a function the config does not declare as a generator', s)
+            g, t, ty = self.tr(s.value.value, env)
+            cur = env.vars['yield__']
+            def emit(e, val):
+                return '(let v_yield__ := (%s ++ [%s]) in %s)' % (e.vars['yield__']['coq'], val, krest(e.bind('yield__', 'v_yield__', cur['ty'])))
+            if ty == self.yields:
+                return self.wrap(g, env, ctx, lambda e: emit(e, t))
+            if ty == 'opt ' + self.yields:
+                # Python would yield None; the declared element type has no None: a distinct error value
+                b = self.fresh('y')
+                self.err('YieldNone', s)
+                return self.wrap(g + [('opt', b, t, 'YieldNone')], env, ctx, lambda e: emit(e, b))
+            refuse('yield of a %s (generator of %s)' % (ty, self.yields), s)
+        if isinstance(s, ast.Assign) and len(s.targets) == 1 and isinstance(s.targets[0], ast.Attribute) \
+                and isinstance(s.targets[0].value, ast.Name) and s.targets[0].value.id in env.vars:
+            # obj.attr = v on a local record: the local is re-bound to the updated record
+            x, attr = s.targets[0].value.id, s.targets[0].attr
+            gx, tx, tyx = self.tr(s.targets[0].value, env)
+            base = tyx[4:] if tyx.startswith('opt ') else tyx
+            if (base, attr) not in self.attr_assign:
+                refuse('attribute assignment %s.%s on a %s' % (x, attr, tyx), s)
+            gv, tv, tyv = self.tr(s.value, env)
+            guards = gx + gv
+            if tyx.startswith('opt '):
+                b = self.fresh('a')
+                self.err('AttributeError', s)           # None.attr = v
+                guards = gx + [('opt', b, tx, 'AttributeError')] + gv
+                tx = b
+            name = self.mangle(x)
+            term = self.attr_assign[(base, attr)].format(cur=tx, val=tv)
+            return self.wrap(guards, env, ctx, lambda e: '(let %s := %s in %s)' % (name, term, krest(e.bind(x, name, base))))
         if isinstance(s, ast.Expr):
             if isinstance(s.value, ast.Constant) and isinstance(s.value.value, str):
                 return krest(env)                      # docstring
@@ -572,15 +631,29 @@ class FnTranslator:
                     guards, subst = [], {}
                     for mv, sub in b.items():
                         g, t, ty = self.tr(sub, env)
-                        if pat.types.get(mv) is not None and ty != pat.types[mv]:
-                            refuse('statement pattern %s: %s has type %s' % (pat.src, mv, ty), s)
+                        want = pat.types.get(mv)
+                        if want is not None and ty != want:
+                            c = self.coerce(t, ty, want) if t is not None else None
+                            if c is None and t is not None and ty == 'opt ' + want and 'NoneValue' in self.errors:
+                                b3 = self.fresh('u')
+                                g = g + [('opt', b3, t, 'NoneValue')]
+                                c = b3
+                            if c is None:
+                                refuse('statement pattern %s: %s has type %s' % (pat.src, mv, ty), s)
+                            t = c
                         guards += g
                         subst[mv] = t
                     cur = env.vars[tgt]
-                    term = pat.template.format(cur=cur['coq'], **subst)
+                    curv, curty = cur['coq'], cur['ty']
+                    if pat.ty is not None and pat.ty != curty:
+                        curv = self.coerce(curv, curty, pat.ty)
+                        if curv is None:
+                            refuse('statement pattern %s: %s has type %s' % (pat.src, tgt, curty), s)
+                        curty = pat.ty
+                    term = pat.template.format(cur=curv, **subst)
                     name = self.mangle(tgt)
                     return self.wrap(guards, env, ctx, lambda e: '(let %s := %s in %s)' % (
-                        name, term, krest(e.bind(tgt, name, cur['ty']))))
+                        name, term, krest(e.bind(tgt, name, curty))))
             refuse('expression statement %s' % ast.unparse(s)[:60], s)
         if isinstance(s, ast.Pass):
             return krest(env)
@@ -605,6 +678,19 @@ class FnTranslator:
                                   op=s.op, right=s.value)
                 ast.copy_location(value, s)
                 ast.fix_missing_locations(value)
+            if isinstance(s, ast.Assign) and isinstance(target, ast.Tuple) and all(isinstance(e, ast.Name) for e in target.elts) \
+                    and self.cfg.get('tuple_first'):
+                # a, b, c = mapped_call(..): the model's value is the first component, the others are opaque
+                g, t, ty = self.tr(value, env)
+                if t is None:
+                    refuse('tuple assignment from an unmapped value', s)
+                name = self.mangle(target.elts[0].id)
+                def kk(e):
+                    e2 = e.bind(target.elts[0].id, name, ty)
+                    for o in target.elts[1:]:
+                        e2 = e2.bind(o.id, None, 'opaque')
+                    return '(let %s := %s in %s)' % (name, t, krest(e2))
+                return self.wrap(g, env, ctx, kk)
             if not isinstance(target, ast.Name):
                 refuse('assignment to a non-local target %s' % ast.unparse(target), s)
             if isinstance(s, ast.Assign) and isinstance(value, ast.BoolOp):
@@ -637,12 +723,17 @@ class FnTranslator:
             x = target.id
             if x == 'self':
                 refuse('assignment to self', s)
-            if isinstance(s, ast.Assign):
+            if isinstance(s, (ast.Assign, ast.AnnAssign)):
                 u = ast.unparse(value)
                 if u in self.binds:
                     return krest(env.bind(x, None, self.binds[u]))
                 if isinstance(value, ast.JoinedStr) or (isinstance(value, ast.Constant) and isinstance(value.value, str)):
                     return krest(env.bind(x, None, 'opaque'))
+                if isinstance(value, ast.Constant) and value.value is None:
+                    if not self.var_types.get(x, '').startswith('opt '):
+                        refuse('%s = None without a declared optional type' % x, s)
+                    name = self.mangle(x)
+                    return '(let %s : %s := None in %s)' % (name, coq_ty(self.var_types[x]), krest(env.bind(x, name, self.var_types[x])))
                 if isinstance(value, ast.List) and not value.elts:
                     if x not in self.var_types:
                         refuse('empty list literal without a declared type for %s' % x, s)
@@ -659,6 +750,8 @@ class FnTranslator:
                              lambda e: self.block(s.orelse, e, ctx, krest))
         if isinstance(s, ast.Return):
             if s.value is None:
+                if self.yields:
+                    return ctx.ret(self.ok.format(env.vars['yield__']['coq']))
                 refuse('bare return', s)
             names = lambda e: {v: d['coq'] for v, d in e.vars.items() if d['coq'] and v.isidentifier()}
             if isinstance(s.value, ast.Constant) and s.value.value is None:
@@ -676,7 +769,26 @@ class FnTranslator:
             if ty != self.ret_ty or t is None:
                 refuse('return value of type %s (expected %s)' % (ty, self.ret_ty), s)
             return self.wrap(g, env, ctx, lambda e: ctx.ret(self.ok.format(t, **names(e))))
+        if isinstance(s, ast.Try):
+            # try: BODY  except: HANDLER      (one bare handler, no else / finally)
+            if not self.cfg.get('allow_try') or s.orelse or s.finalbody or len(s.handlers) != 1 \
+                    or s.handlers[0].type is not None or s.handlers[0].name is not None:
+                refuse('try statement outside the subset (one bare `except:` only)', s)
+            if ctx.exc is not None:
+                refuse('nested try', s)
+            h = s.handlers[0].body
+            hctx = Ctx(ret=ctx.ret, brk=ctx.brk, cont=ctx.cont)
+            hctx.in_handler = True
+            bctx = Ctx(ret=ctx.ret, brk=ctx.brk, cont=ctx.cont,
+                       exc=lambda e: self.block(h, e, hctx, krest))
+            return self.block(s.body, env, bctx, lambda e: self.block(rest, e, ctx, k))
+        if isinstance(s, ast.Raise) and s.exc is None:
+            if not getattr(ctx, 'in_handler', False) or 'reraise' not in self.cfg:
+                refuse('bare raise outside an except handler', s)
+            return ctx.ret(self.cfg['reraise'])
         if isinstance(s, ast.Raise):
+            if ctx.exc is not None:
+                return ctx.exc(env)
             return ctx.ret(self.raise_term(s))
         if isinstance(s, ast.Break):
             if ctx.brk is None:
@@ -731,6 +843,8 @@ class FnTranslator:
         return ' '.join(a for a, _ in self.args)
 
     def for_loop(self, s, env, ctx, krest):
+        if ctx.exc is not None:
+            refuse('loop inside a try body', s)
         if s.orelse:
             refuse('for ... else', s)
         it = s.iter
@@ -752,9 +866,12 @@ class FnTranslator:
         if not lty.startswith('list ') or lt is None:
             refuse('for over a non-list: %s' % ast.unparse(s.iter), s)
         ety = lty[5:]
-        if x in self.assigned(s.body) or (ix is not None and (ix in self.assigned(s.body) or ix == x)):
-            refuse('loop variable assigned in the body', s)
+        if ix is not None and (ix in self.assigned(s.body) or ix == x):
+            refuse('loop counter assigned in the body', s)
+        # the loop variable itself may be re-bound in the body (it is bound afresh by every iteration)
         state, body_locals, closure, benv = self.loop_common(s, env, s.body)
+        if x in body_locals:
+            body_locals.remove(x)
         for v in (x, ix):
             if v in state:
                 state.remove(v)
@@ -771,10 +888,16 @@ class FnTranslator:
         cl_formal = [(self.mangle(v) if env.vars[v]['coq'] == self.mangle(v) else env.vars[v]['coq'], env.vars[v]['ty']) for v in closure]
         S = self.tuple_ty([t for _, t in st_formal])
         call_prefix = ' '.join([lname, self.actual_args()] + [c for c, _ in cl_formal])
+        st_ty = {v: benv.vars[v]['ty'] for v in state}
+        def st_val(e, v):
+            c = self.coerce(e.vars[v]['coq'], e.vars[v]['ty'], st_ty[v])
+            if c is None:
+                refuse('loop state variable %s changes type (%s -> %s)' % (v, st_ty[v], e.vars[v]['ty']), s)
+            return c
         def st_tuple(e):
-            return self.tuple_term([e.vars[v]['coq'] for v in state])
+            return self.tuple_term([st_val(e, v) for v in state])
         def st_args(e):
-            return ' '.join(e.vars[v]['coq'] for v in state)
+            return ' '.join(st_val(e, v) for v in state)
         lctx = Ctx(ret=lambda r: '(Done %s)' % r,
                    brk=lambda e: '(Continue %s)' % st_tuple(e),
                    cont=lambda e: ('(%s t__ %s%s)' % (call_prefix, '(%s + 1) ' % ixc if ix is not None else '', st_args(e))).replace(' )', ')'))
@@ -795,6 +918,8 @@ class FnTranslator:
             krest(self.after_loop_env(e, state, body_locals, maybe))))
 
     def while_loop(self, s, env, ctx, krest):
+        if ctx.exc is not None:
+            refuse('loop inside a try body', s)
         if s.orelse:
             refuse('while ... else', s)
         if not self.fuel:
@@ -809,10 +934,16 @@ class FnTranslator:
         cl_formal = [(env.vars[v]['coq'], env.vars[v]['ty']) for v in closure]
         S = self.tuple_ty([t for _, t in st_formal])
         call_prefix = ' '.join([lname, self.actual_args()] + [c for c, _ in cl_formal])
+        st_ty = {v: benv.vars[v]['ty'] for v in state}
+        def st_val(e, v):
+            c = self.coerce(e.vars[v]['coq'], e.vars[v]['ty'], st_ty[v])
+            if c is None:
+                refuse('loop state variable %s changes type (%s -> %s)' % (v, st_ty[v], e.vars[v]['ty']), s)
+            return c
         def st_tuple(e):
-            return self.tuple_term([e.vars[v]['coq'] for v in state])
+            return self.tuple_term([st_val(e, v) for v in state])
         def st_args(e):
-            return ' '.join(e.vars[v]['coq'] for v in state)
+            return ' '.join(st_val(e, v) for v in state)
         lctx = Ctx(ret=lambda r: '(Done %s)' % r,
                    brk=lambda e: '(Continue %s)' % st_tuple(e),
                    cont=lambda e: ('(%s fuel__ %s)' % (call_prefix, st_args(e))).replace(' )', ')'))
@@ -859,6 +990,34 @@ class FnTranslator:
         post = ast.parse('def f__():\n' + '\n'.join('    ' + l for l in self.cfg.get('slice_post', ['pass']))).body[0].body
         return pre + found[0] + post
 
+    def apply_rewrites(self, stmts):
+        """exact-text statement rewrites of the config (before the ignore pass, so that the names a replaced
+        statement mentioned no longer count as used by translated code)"""
+        import hashlib
+        out = []
+        for st in stmts:
+            text = ast.unparse(st)
+            rep = None
+            for key, src in self.rewrites:
+                if key == text or (key.startswith('sha256:') and key[7:] == hashlib.sha256(text.encode()).hexdigest()):
+                    rep = ast.parse(src).body
+                    for r in rep:
+                        for n in ast.walk(r):
+                            if hasattr(n, 'lineno'):
+                                n.lineno = n.end_lineno = st.lineno
+            if rep is not None:
+                out += rep
+                continue
+            if not isinstance(st, ast.FunctionDef):
+                for f in ('body', 'orelse', 'finalbody'):
+                    blk = getattr(st, f, None)
+                    if isinstance(blk, list) and blk and isinstance(blk[0], ast.stmt):
+                        setattr(st, f, self.apply_rewrites(blk))
+                for hd in getattr(st, 'handlers', []):
+                    hd.body = self.apply_rewrites(hd.body)
+            out.append(st)
+        return out
+
     def preprocess(self, stmts, loop=None, top=None):
         """drop the statements the config declares irrelevant (ignore_stmts), apply the exact-text rewrites.
         An ignored statement may not store a name that translated code uses -- except the target of the
@@ -866,6 +1025,19 @@ class FnTranslator:
         import hashlib, collections
         if top is None:
             top = stmts
+            self._ignored = []
+            def collect(ss):
+                for x in ss:
+                    if any(r.search(ast.unparse(x)) for r in self.ignore) and not isinstance(x, (ast.Return, ast.Raise, ast.Break, ast.Continue)):
+                        self._ignored.append(x)
+                        continue
+                    for f in ('body', 'orelse'):
+                        blk = getattr(x, f, None)
+                        if isinstance(blk, list) and blk and isinstance(blk[0], ast.stmt) and not isinstance(x, ast.FunctionDef):
+                            collect(blk)
+                    for hd in getattr(x, 'handlers', []):
+                        collect(hd.body)
+            collect(stmts)
         def names(nodes, kind=None):
             c = collections.Counter()
             for x in nodes:
@@ -877,8 +1049,17 @@ class FnTranslator:
         for st in stmts:
             text = ast.unparse(st)
             if any(r.search(text) for r in self.ignore) and not isinstance(st, (ast.Return, ast.Raise, ast.Break, ast.Continue)):
-                others = names(top) - names([st])
-                for v in names([st], ast.Store):
+                others = names(top) - names(self._ignored)      # what the TRANSLATED statements mention
+                def outer_stores(node, acc):
+                    # names bound by a comprehension are local to it
+                    for ch in ast.iter_child_nodes(node):
+                        if isinstance(ch, (ast.ListComp, ast.SetComp, ast.DictComp, ast.GeneratorExp)):
+                            continue
+                        if isinstance(ch, ast.Name) and isinstance(ch.ctx, ast.Store):
+                            acc.add(ch.id)
+                        outer_stores(ch, acc)
+                    return acc
+                for v in sorted(outer_stores(st, set())):
                     if others[v] == 0:
                         continue
                     later = [x for x in (loop.body if loop is not None else []) if x.lineno > st.lineno]
@@ -886,20 +1067,17 @@ class FnTranslator:
                             and not any(v in names([x], ast.Load) for x in later) \
                             and not any(v in names([x], ast.Load) for x in stmts if x.lineno > st.lineno):
                         continue
+                    if v in self.cfg.get('ignore_may_store', []):
+                        continue
                     refuse('ignored statement assigns %s, which translated code uses' % v, st)
-                continue
-            rep = None
-            for key, src in self.rewrites:
-                if key == text or (key.startswith('sha256:') and key[7:] == hashlib.sha256(text.encode()).hexdigest()):
-                    rep = ast.parse(src).body
-            if rep is not None:
-                out += rep
                 continue
             for f in ('body', 'orelse'):
                 blk = getattr(st, f, None)
                 if isinstance(blk, list) and blk and isinstance(blk[0], ast.stmt) and not isinstance(st, ast.FunctionDef):
                     new = self.preprocess(blk, st if isinstance(st, ast.For) else loop, top)
                     setattr(st, f, new if (new or f == 'orelse') else [ast.Pass()])
+            for hd in getattr(st, 'handlers', []):
+                hd.body = self.preprocess(hd.body, loop, top) or [ast.Pass()]
             out.append(st)
         return out
 
@@ -909,11 +1087,15 @@ class FnTranslator:
         if [ast.unparse(d) for d in fn.decorator_list] not in ([], self.cfg.get('decorators', [])):
             refuse('decorated function', fn)
         a = fn.args
-        if a.vararg or a.kwarg or a.posonlyargs:
+        if a.vararg or a.posonlyargs or (a.kwarg and not self.cfg.get('allow_kwargs')):
             refuse('*args / **kwargs', fn)
-        body_stmts = self.preprocess(self.slice_body(fn))
+        body_stmts = self.preprocess(self.apply_rewrites(self.slice_body(fn)))
         scan = ast.Module(body=body_stmts, type_ignores=[])
         for n in ast.walk(scan):
+            if isinstance(n, ast.Yield) and self.yields:
+                continue
+            if isinstance(n, ast.Try) and self.cfg.get('allow_try'):
+                continue
             if isinstance(n, (ast.Global, ast.Nonlocal, ast.Try, ast.With, ast.Yield, ast.YieldFrom, ast.Lambda,
                               ast.Await, ast.AsyncFor, ast.AsyncWith, ast.ClassDef, ast.Import, ast.ImportFrom,
                               ast.Delete, ast.Assert, ast.NamedExpr, ast.Starred, ast.Match)):
@@ -933,7 +1115,11 @@ class FnTranslator:
             coq, ty = pmap[p]
             env = env.bind(p, coq, ty)
         fctx = Ctx(ret=lambda r: r)
+        if self.yields:
+            env = env.bind('yield__', '[]', 'list ' + self.yields)
         def fall(e):
+            if self.yields:
+                return self.ok.format(e.vars['yield__']['coq'])
             refuse('control can fall off the end of the function (implicit return None)', fn)
         body = self.block(body_stmts, env, fctx, fall)
         if self.fuel:
